@@ -109,7 +109,7 @@ CHECKS.update({
 
 CHECKS.update({
  "C02": (B, "exploration",
-   "bounded-exhaustive enumeration: full cross product of boundary alphabets (prices x liquidity x instance-derived amounts x fee rates x modes), complete small boxes (tick box and three one-unit-per-price-unit boxes), U256Muldiv over all operand pairs of a word alphabet; exact rational oracle (num-bigint); near-integer liquidities of tick-price pairs (continued-fraction convergents: exact amount within 2^-32 of an integer, from below and above) and liquidities at the u64 boundary of the amount",
+   "bounded-exhaustive enumeration: full cross product of boundary alphabets (prices x liquidity x instance-derived amounts x fee rates x modes), complete small boxes (tick box and three one-unit-per-price-unit boxes), U256Muldiv over all operand pairs of a word alphabet; exact rational oracle (num-bigint); near-integer liquidities of tick-price pairs (continued-fraction convergents: exact amount within 2^-32 of an integer, from below and above) and liquidities at the u64 boundary of the amount; liquidity x price width at the 2^128 / 2^192 / 2^193 boundaries of the 256-bit numerator",
    "On every successful step of the enumerated sets: price moves toward and not past the target; input = exact amount rounded up, output = exact amount rounded down (or the smaller request); the step is tight to within one price unit and consumes the whole budget / delivers the whole request when it stops short; U256 division q*d+r==n for every non-zero divisor (a panic there is a violation).",
    "Finite alphabets and boxes, not all of u64 x u128 x price^2 (exhaustive=false); compute_swap and the token-math functions are called directly.", "DESIGN.md §3 C02"),
 })
